@@ -12,7 +12,19 @@ this prelude, on every run. What is *assumed* about Go here (the translator's se
   so this is stricter than Go: a translated function proved panic-free here is panic-free in Go);
 * a `for` loop is `loopM` with explicit fuel: running out of fuel is an error of its own, distinct from a panic,
   and the equivalence theorems give the fuel that suffices;
-* `strings.IndexByte`, `strings.HasPrefix`, the `min` builtin: re-modelled below.
+* `strings.IndexByte`, `strings.HasPrefix`, the `min` builtin, `strconv.ParseUint(s, 10, 64)`, `strconv.FormatUint(n, 10)`:
+  re-modelled below;
+* `uint64` is `UInt64` (arithmetic modulo 2^64, as in Go); a `*uint64` is an `Option UInt64` (nil or a cell — the
+  translated code holds at most one pointer to each cell, so a cell is a value); a pointer to a struct is the struct
+  where it is a parameter or receiver (handed in and back, assumed non-nil) and an `Option` where it is a struct
+  field, a result or a variable that is given `nil` somewhere; dereferencing `none` panics;
+* `time.Time` is an `Int`: nanoseconds since the zero Time, so `IsZero` is `= 0` (`Now()` is assumed never to return
+  the zero Time — a hypothesis of the theorems that need it), `Add`/`Sub` are `+`/`−` (Go saturates a `Sub` that
+  overflows a Duration: out of scope), `After`/`Before` are `>`/`<`; a function-valued field without parameters
+  (`ValidReplayer.Now`) is a computation `GoM α`;
+* an iterator `func(yield func(A, B) bool)` that is applied to a function literal on the spot (`q.each(i)(func…)`) is a
+  function of what the literal does with its state — the variables it assigns outside itself — and that state;
+* an interface value whose methods are called (`MessageWriter`) is a state and its methods' answers (`MsgWriter`).
 -/
 namespace GoSSE.GoRT
 open GoSSE
@@ -95,6 +107,52 @@ of the theorems that need it. -/
 structure Writer (σ : Type) where
   st : σ
   write : σ → Bytes → Int × Option String × σ
+
+/-- A subscriber (`MessageWriter`): a state and what `Send(m)` / `Flush()` answer and become. `μ` is the message type
+(`Send` takes a pointer: `none` is a nil message). Any functions are allowed; what a particular subscriber does
+(fail at its k-th Send, …) is an instance. -/
+structure MsgWriter (μ σ : Type) where
+  st : σ
+  send : σ → Option μ → Option String × σ
+  flush : σ → Option String × σ
+
+/-- `*p` / `p.f` of a pointer that may be nil -/
+def derefPtr {α} (p : Option α) : GoM α :=
+  match p with
+  | some a => pure a
+  | none => throw (.panic "invalid memory address or nil pointer dereference")
+
+/-- `uint64(x)` of an `int`: modulo 2^64 -/
+def u64OfInt (x : Int) : UInt64 := UInt64.ofNat (x % 18446744073709551616).toNat
+
+/-- `int(x)` of a `uint64`: two's complement -/
+def intOfU64 (x : UInt64) : Int :=
+  if x.toNat < 9223372036854775808 then (x.toNat : Int) else (x.toNat : Int) - 18446744073709551616
+
+/-- the digit loop of `strconv.FormatUint(n, 10)` (`formatBits`): digits from the least significant one -/
+def formatDigits : Nat → Nat → Bytes → Bytes
+  | 0, _, acc => acc
+  | fuel + 1, u, acc =>
+    if u ≥ 10 then formatDigits fuel (u / 10) (UInt8.ofNat (48 + u % 10) :: acc)
+    else UInt8.ofNat (48 + u) :: acc
+
+/-- `strconv.FormatUint(n, 10)` -/
+def strconvFormatUint (n : UInt64) : Bytes := formatDigits (n.toNat + 1) n.toNat []
+
+/-- the digit loop of `strconv.ParseUint(s, 10, 64)`: a non-digit is a syntax error with value 0, leaving the uint64
+range a range error with the largest value — whichever comes first from the left -/
+def parseUintDigits : Bytes → Nat → Nat × Option String
+  | [], n => (n, none)
+  | c :: t, n =>
+    if !(48 ≤ c && c ≤ 57) then (0, some "strconv.ErrSyntax") else
+    let n1 := n * 10 + (c.toNat - 48)
+    if n1 > 18446744073709551615 then (18446744073709551615, some "strconv.ErrRange") else parseUintDigits t n1
+
+/-- `strconv.ParseUint(s, 10, 64)` (the empty string is a syntax error; base 10 takes no sign, prefix or underscore) -/
+def strconvParseUint (s : Bytes) : UInt64 × Option String :=
+  if s.isEmpty then (0, some "strconv.ErrSyntax") else
+  let r := parseUintDigits s 0
+  (UInt64.ofNat r.1, r.2)
 
 /-- `strings.IndexByte` -/
 def stringsIndexByte (s : Bytes) (c : UInt8) : Int :=
